@@ -111,7 +111,8 @@ def main(argv=None) -> int:
     reach.start()
     samples = []
     viol_cases = []
-    per_case_timeout = getattr(mod, "CASE_TIMEOUT", 120.0)
+    per_case_timeout = getattr(mod, "CASE_TIMEOUT", 120.0) * float(
+        os.environ.get("PVM_TIMEOUT_SCALE", "1"))
     # the runner's absolute deadline (minus a margin to dump results) bounds the work;
     # cases not started by then are counted as not run, never silently dropped
     t_end = a.deadline if a.deadline is not None else time.time() + getattr(
